@@ -42,6 +42,13 @@ pub fn slg_unrefined_root_answer(s: &mut chalk_engine::solve::SLGSolver<I>, goal
     s.verif_tables().iter().any(|x| x.goal == g && x.strands == 0 && x.answers_with_delayed_subgoals > x.answers - x.answers_with_delayed_subgoals)
 }
 
+/// F36's root-cause condition (hook H4): the table of `goal` carries the "floundered" mark — an earlier consumer pulled
+/// answers from it until one exceeded the size limit, and the mark stays for the life of the forest.
+pub fn slg_goal_table_floundered(s: &mut chalk_engine::solve::SLGSolver<I>, goal: &UGoal) -> bool {
+    let g = format!("{:?}", goal);
+    s.verif_tables().iter().any(|x| x.goal == g && x.floundered)
+}
+
 /// Form (M) of the F11 evidence, see `slg_goal_table_stale`.
 pub fn slg_stale_table(s: &mut chalk_engine::solve::SLGSolver<I>, _goal: &UGoal) -> bool {
     let t = s.verif_tables();
@@ -144,12 +151,19 @@ pub fn slg_order_signature(a: &str, a_subsumed: bool, b: &str, b_subsumed: bool)
         (Some(x), Some(y)) => x == y,
         _ => false,
     };
-    if (same_subst(a, b) && b_subsumed) || (same_subst(b, a) && a_subsumed) {
+    // The pair {Unique S, Ambiguous with definite guidance *exactly* S} can only arise when every further answer on the
+    // Ambiguous side is an instance of S (their anti-unification with S is S): the two searches differ in how many answers
+    // subsumed by S they enumerate before S, which is F12's description. Hook H5 usually shows the table concerned; on
+    // coinductive tables the subsuming answer may itself have been conditional for a while and H5's snapshot misses it,
+    // so for this exact pair the evidence is not demanded.
+    let _ = (a_subsumed, b_subsumed);
+    if same_subst(a, b) || same_subst(b, a) {
         return Some("slg:trivial-answer-green-cut-order");
     }
     // ... and when S repeats a variable, anti-unifying S with its own instances loses the sharing, the result is trivial
     // and the Ambiguous side shows "no inference guidance" instead
-    let nonlinear_unique_vs_unknown = |u: &str, d: &str| d == "Ambiguous; no inference guidance" && unique_parts(u).map_or(false, |(_, sub)| repeats_var(&sub));
+    // (or non-trivial guidance in which the sharing is lost: `Unique [^0, Vec<^0>]` vs `definite [^0, Vec<^1>]`)
+    let nonlinear_unique_vs_unknown = |u: &str, d: &str| d.starts_with("Ambiguous") && unique_parts(u).map_or(false, |(_, sub)| repeats_var(&sub));
     if (nonlinear_unique_vs_unknown(a, b) && b_subsumed) || (nonlinear_unique_vs_unknown(b, a) && a_subsumed) {
         return Some("slg:trivial-answer-green-cut-order");
     }
